@@ -299,6 +299,15 @@ func (f *c20Fix) pingSeq(nd *enode.Node, seq uint64, typ uint16, radius []byte) 
 }
 
 // pong: what processPong returns (an error for an unsupported type) is not something the statement speaks about.
+// talkPing delivers the ping as a TALKREQ from nd's endpoint.
+func (f *c20Fix) talkPing(nd *enode.Node, seq uint64, typ uint16, radius []byte) []byte {
+	b, err := (&portalwire.Ping{EnrSeq: seq, PayloadType: typ, Payload: c20Payload(typ, radius)}).MarshalSSZ()
+	if err != nil {
+		panic(err)
+	}
+	return f.bn.P.VerifHandleTalkRequest(nd, &net.UDPAddr{IP: nd.IP(), Port: nd.UDP()}, append([]byte{portalwire.PING}, b...))
+}
+
 func (f *c20Fix) pong(nd *enode.Node, typ uint16, radius []byte) {
 	f.pongSeq(nd, nd.Seq(), typ, radius)
 }
@@ -743,6 +752,8 @@ func c20Events() []string {
 		}
 		evs = append(evs, fmt.Sprintf("%s:%d:r1", dir, pingext.Error))
 	}
+	// the node leaves the table (liveness, explicit deletion); the operator adds its record by hand
+	evs = append(evs, "del", "addenr")
 	return evs
 }
 
@@ -777,16 +788,26 @@ func c20RunRadius(r *mc.Report, f *c20Fix, c c20Case) bool {
 	}
 	keys, contents := c20Batch(cid, 0)
 	last, trace := "", []string{}
+	// inTable / assumed: X is in the routing table; its radius is the maximum installed by AddEnr
+	// for a node that was outside the table (an operator's default, not a report)
+	inTable, assumed := true, false
 	f.bn.P.VerifResetPeerCaches()
+	f.vt.InsertDirect(x, true) // a previous sequence may have ended with X deleted
 	for k, ev := range c.Seq {
 		var dir, rn string
 		var typ uint16
 		p := strings.Split(ev, ":")
-		dir, rn = p[0], p[2]
-		fmt.Sscan(p[1], &typ)
-		site := fmt.Sprintf("%s:%s:type-%d", f.proto, dir, typ)
-		radius := c20SSZ(c20Rs[rn])
-		carries := c20Carries[f.proto][typ]
+		dir = p[0]
+		site := f.proto + ":" + dir
+		var radius []byte
+		carries := false
+		if len(p) >= 3 {
+			rn = p[2]
+			fmt.Sscan(p[1], &typ)
+			site = fmt.Sprintf("%s:%s:type-%d", f.proto, dir, typ)
+			radius = c20SSZ(c20Rs[rn])
+			carries = c20Carries[f.proto][typ]
+		}
 		f.st.radius = new(uint256.Int).AddUint64(new(uint256.Int).Lsh(uint256.NewInt(1), uint(250-k)), uint64(k+1))
 		var reply, cached []byte
 		var err error
@@ -800,10 +821,15 @@ func c20RunRadius(r *mc.Report, f *c20Fix, c c20Case) bool {
 			if len(p) > 3 && p[3] == "newer" {
 				seq += uint64(k) + 1 // the node says its record has changed: we try to fetch it, nobody answers
 			}
-			if dir == "ping" {
-				reply, err = f.pingSeq(x, seq, typ, radius)
-			} else {
+			switch dir {
+			case "ping": // through the TALKREQ entry point: a sender outside the table is first added as an inbound contact
+				reply = f.talkPing(x, seq, typ, radius)
+			case "pong":
 				f.pongSeq(x, seq, typ, radius)
+			case "del":
+				f.vt.Delete(x)
+			case "addenr":
+				f.bn.P.AddEnr(x)
 			}
 			synctest.Wait()
 			if seq != x.Seq() {
@@ -848,18 +874,40 @@ func c20RunRadius(r *mc.Report, f *c20Fix, c c20Case) bool {
 				}
 			}
 		}
-		if carries {
-			last = rn
+		switch dir {
+		case "ping", "pong": // either makes X a table node again (the fixture's buckets have room)
+			inTable = true
+			if carries {
+				last, assumed = rn, false
+			}
+		case "del":
+			inTable = false
+		case "addenr":
+			if !inTable {
+				inTable, assumed = true, true
+			}
 		}
 		var want []byte
 		st := []byte(strings.Repeat("u", f.n))
-		if last != "" {
+		switch {
+		case assumed:
+			want = c20SSZ(new(uint256.Int).SetAllOne())
+			st[1] = 'c'
+		case last != "":
 			want = c20SSZ(c20Rs[last])
 			st[1] = map[string]byte{"r1": 'c', "r2": 'x'}[last]
 		}
+		if !inTable {
+			st[1] = 'u' // not a table node: never a target, whatever the cache says
+		}
 		if !bytes.Equal(cached, want) {
 			clause := "cache-holds-last-reported-radius"
-			if !carries {
+			switch {
+			case dir == "addenr":
+				clause = "addenr-leaves-a-reported-radius-alone"
+			case dir == "del":
+				clause = "delete-leaves-radius-unchanged"
+			case !carries:
 				clause = "unsupported-type-leaves-radius-unchanged"
 			}
 			r.Violation(clause, site, fmt.Sprintf("seq %v step %d: cached %x, last reported in a supported type %x", c.Seq, k, cached, want), c)
